@@ -30,7 +30,7 @@ class Dart:
 
     def abi(self, tok, depth=0):
         tok = tok.strip()
-        if tok in DART_PRIM: return DART_PRIM[tok]
+        if tok in DART_PRIM: return f"(dart_obs {cstr(tok)})"      # the name-to-class table lives in Abi/Model.v (dart_name_abi)
         if tok.startswith("ffi.Pointer<"): return "APtr"
         if tok in self.classes and depth < 8:
             kind, fields = self.classes[tok]
@@ -75,9 +75,9 @@ class Kotlin:
 
     def abi(self, tok, depth=0):
         tok = tok.strip()
-        if tok == "Boolean" and depth > 0:
-            return "(AI 4 true)"      # JNA lays a boolean *field* of a Structure / Union out as a 32-bit int; only Byte matches a C bool there
-        if tok in KT_PRIM: return KT_PRIM[tok]
+        # the name-to-class table lives in Abi/Model.v (kt_name_abi; kt_field_abi inside a Structure / Union, where JNA lays a Boolean out
+        # as a 32-bit int, so that only Byte matches a C bool there)
+        if tok in KT_PRIM: return f"(kt_obs {cbool(depth > 0)} {cstr(tok)})"
         if tok in self.classes and depth < 8:
             kind, fields = self.classes[tok]
             inner = clist([self.abi(t, depth + 1) for _, t in fields])
